@@ -293,17 +293,21 @@ func (c *concCtx) writerTask(name string, prog []Op, g *Gen, ntx int) {
 func drawSched(cfg *Cfg, rng *simsched.Rand) {
 	cfg.Stick = []float64{0, 0.2, 0.5, 0.8, 0.95}[rng.Intn(5)]
 	cfg.BgWeight = []float64{0.1, 0.5, 1, 1, 3}[rng.Intn(5)]
+	// task starvation (wave 11, C02k): derived from a copy of the generator so that
+	// the stream every other choice of the run is drawn from stays as it was
+	peek := *rng
+	cfg.Starve = []float64{0, 0, 0.01, 0.04}[peek.Intn(4)]
 }
 
 func init() {
-	probeNames["C02"] = []string{"reader_spans_writer_step", "reader_begin_concurrent_with_commit", "commit_ok", "tx_aborted", "commit_waited_for_reader", "remap_at_commit", "reader_blocked_on_pending", "checkpoint_with_wal_entries", "rollback_after_flush"}
+	probeNames["C02"] = []string{"reader_spans_writer_step", "reader_begin_concurrent_with_commit", "commit_ok", "tx_aborted", "commit_waited_for_reader", "remap_at_commit", "reader_blocked_on_pending", "checkpoint_with_wal_entries", "rollback_after_flush", "sched_starvation_episodes"}
 	register(&PropDef{
 		ID: "C02", Level: "exploration", QuickSec: 55, ThoroSec: 1200,
 		Rule: "each run = one writer task executing a seeded txops history (incl. Flush before commit, CheckpointWAL, frees, rollbacks, unbounded files growing past the 64KiB mapping) and 1-3 reader tasks each taking several read snapshots (two full passes over all candidate pages with yields between single page reads); the PRNG scheduler interleaves at every txfile hook (before/after pending, before/after exclusive, after switch, tx close, begin) and every simulated disk call. Oracle: each snapshot equals exactly one committed model state inside the window given by global event sequence numbers of Begin and Commit, in both passes. Non-trivial = run in which a reader was alive across at least one writer commit step; distinct = hash of the (task, yield point) sequence.",
 		Real: defaultReal, Stub: defaultStub, Assume: defaultAssume,
 		Body: c02Body,
 	})
-	probeNames["C09"] = []string{"commit_ok", "tx_aborted", "commit_failed", "readers_overlap_writer", "commit_waited_for_reader", "reader_blocked_on_pending", "closer_ran", "open_time_maxsize_update", "reader_spans_writer_step"}
+	probeNames["C09"] = []string{"commit_ok", "tx_aborted", "commit_failed", "readers_overlap_writer", "commit_waited_for_reader", "reader_blocked_on_pending", "closer_ran", "open_time_maxsize_update", "reader_spans_writer_step", "sched_starvation_episodes"}
 	register(&PropDef{
 		ID: "C09", Level: "exploration", QuickSec: 55, ThoroSec: 1200,
 		Rule: "each run = 0-4 reader tasks, 1-3 writer tasks (each ending transactions by commit/rollback/close/failing commit from out-of-space) and optionally a closer task invoking File.Close once every Begin has returned, optionally preceded by an open with FlagUpdMaxSize (grow/shrink/unbounded, prealloc) that runs internal transactions; the PRNG scheduler interleaves at every hook and disk call. Oracles: at most one write transaction active; scheduler never reaches 'unfinished tasks, nothing runnable' (deadlock) nor the step budget; whenever no transaction is open the lock state is idle (shared=0, pending clear, reserved free), also right after Open. Non-trivial = run with at least one context switch between two transaction tasks while both had a transaction open or pending; distinct = hash of the (task, yield point) sequence.",
@@ -318,6 +322,7 @@ func c02Body(e *Env) {
 		cfg := DrawCfg(e.Rng("cfg"), 0)
 		rng := e.Rng("c02")
 		drawSched(&cfg, rng)
+		e.S.Tune(cfg.Stick, cfg.BgWeight, cfg.Starve, 40)
 		cfg.NTx = 2 + rng.Intn(7)
 		cfg.Readers = 1 + rng.Intn(3)
 		cfg.Mix = []string{"balanced", "overwrite", "checkpoint", "rollback", "big", "alloc", "fragment"}[rng.Intn(7)]
@@ -462,6 +467,7 @@ func c09Body(e *Env) {
 		cfg := DrawCfg(e.Rng("cfg"), 0)
 		rng := e.Rng("c09")
 		drawSched(&cfg, rng)
+		e.S.Tune(cfg.Stick, cfg.BgWeight, cfg.Starve, 40)
 		cfg.NTx = 1 + rng.Intn(4)
 		cfg.Readers = rng.Intn(5)
 		cfg.Writers = 1 + rng.Intn(3)
